@@ -24,6 +24,9 @@ HEADER = "x.h"
 K_ANGLE = "C17-angle-include-empty-system-path"
 K_LINK = "C17-command-line-file-through-symlink"
 K_EMPTY = "C17-standardize-collapses-to-empty"
+K_SYMDD_FN = "C17-standardize-dotdot-after-symlink"        # Filename level: not fixed (lexical by design)
+K_SYMDD_OPT = "C17-include-dir-dotdot-after-symlink"       # interrogate -I/-S/-srcdir: c17-fix-4
+K_CYCLE = "C17-unguarded-include-cycle"                    # c17-fix-5
 
 
 def h32(*a):
@@ -425,7 +428,179 @@ def replay_own(ctx, recs):
 
 
 # ---------------------------------------------------------------------------------------------
-# Part 4: path normalisation
+# Part 4: include chains
+LEAF_ORDER = ["CWD", "MAIN", "RDIR", "REFDIR", "I1", "S1", "I2"]
+KEY_LEAFSETS = [["RDIR"], ["RDIR", "I2"], ["REFDIR"], ["RDIR", "REFDIR"], ["MAIN"], [], ["MAIN", "REFDIR", "I2"],
+                ["CWD", "RDIR"], ["S1", "I2"]]
+
+
+def chain_rdirs(ways):
+    """Resolved directory of every file of the chain as path components below the case root."""
+    dirs = [["main"]]
+    for k, w in enumerate(ways, 1):
+        if w == "cwd":
+            d = ["cwd", "d%d" % k]
+        elif w in ("incdir", "dotdot"):
+            d = dirs[-1] + ["d%d" % k]
+        elif w == "I":
+            d = ["I1", "d%d" % k]
+        elif w == "S":
+            d = ["S1", "d%d" % k]
+        else:
+            d = ["real", "d%d" % k]
+        dirs.append(d)
+    return dirs
+
+
+def select_chains(recs, tier):
+    if tier == "thorough":
+        return [r for r in recs if h32("ct", r["ways"], r["cmd"], r["leafAt"]) % 4 == 0 or r["leafAt"] in KEY_LEAFSETS]
+    out = []
+    for r in recs:
+        canonical_cmd = [c for c in r["cmd"] if c in ("I1", "S1", "I2")] == ["I1", "S1", "I2"]
+        if (r["leafAt"] in KEY_LEAFSETS and canonical_cmd) or h32("c", r["ways"], r["cmd"], r["leafAt"]) % 64 == 0:
+            out.append(r)
+    return out
+
+
+def chain_case(rec, root):
+    ways = rec["ways"]
+    K = len(ways)
+    dirs = chain_rdirs(ways)
+    for d in ("cwd", "main", "I1", "S1", "I2", "real/zz", "out"):
+        os.makedirs(os.path.join(root, d), exist_ok=True)
+    os.symlink("real", os.path.join(root, "lnk"))
+    os.symlink("real/zz", os.path.join(root, "lnk2"))
+    names = []
+    for k in range(1, K + 1):
+        os.makedirs(os.path.join(root, *dirs[k]), exist_ok=True)
+        names.append(("d%d/../d%d/f%d.h" if ways[k - 1] == "dotdot" else "d%d/f%d.h") % ((k, k, k) if ways[k - 1] == "dotdot" else (k, k)))
+    names.append("sib.h")
+    for k in range(1, K + 1):
+        open(os.path.join(root, *dirs[k], "f%d.h" % k), "w").write(
+            '#pragma once\n#define SEEN_%d 1\n#include "%s"\n' % (k, names[k]))
+    main = ['#include "%s"' % names[0], "__begin_publish"]
+    for k in range(1, K + 1):
+        main += ["#ifdef SEEN_%d" % k, "extern int seen_%d;" % k, "#endif"]
+    main += ["extern int FROM;", "extern int top_marker;", "__end_publish"]
+    open(os.path.join(root, "main", "main.h"), "w").write("\n".join(main) + "\n")
+    place_dir = {"CWD": ["cwd"], "MAIN": ["main"], "RDIR": dirs[K], "REFDIR": ["cwd", "d%d" % K],
+                 "I1": ["I1"], "S1": ["S1"], "I2": ["I2"]}
+    for pl in rec["leafAt"]:
+        os.makedirs(os.path.join(root, *place_dir[pl]), exist_ok=True)
+        open(os.path.join(root, *place_dir[pl], "sib.h"), "w").write(
+            "#pragma once\n#define FROM from_%s\n__begin_publish\nextern int own_%s;\n__end_publish\n" % (pl, pl))
+    argv = ["-v", "-module", "m", "-library", "l", "-od", os.path.join(root, "out", "o.in")]
+    for c in rec["cmd"]:
+        argv += {"I1": ["-I", "../I1"], "S1": ["-S", "../S1"], "I2": ["-I../I2"], "LNK": ["-I", "../lnk"],
+                 "LNKDD": ["-I", "../lnk2/.."]}[c]
+    argv.append("../main/main.h")
+    return names, dirs, place_dir, argv
+
+
+def replay_chains(ctx, recs):
+    base = os.path.realpath(os.path.join(ctx.tmp, "chain"))
+    os.makedirs(base, exist_ok=True)
+
+    def one(irec):
+        cid, rec = irec
+        root = os.path.join(base, "c%05d" % cid)
+        os.makedirs(root)
+        names, dirs, place_dir, argv = chain_case(rec, root)
+        K = len(rec["ways"])
+        tr = os.path.join(root, "out", "trace.ndjson")
+        r = run.run_tool("interrogate", argv, cwd=os.path.join(root, "cwd"), trace=tr, timeout=60)
+        dbp = os.path.join(root, "out", "o.in")
+        db = open(dbp, errors="replace").read() if os.path.exists(dbp) else ""
+        found = set(re.findall(r"\b(from_\w+|own_\w+|FROM|top_marker|seen_\d+)\b", db))
+        froms = sorted(n[5:] for n in found if n.startswith("from_"))
+        won = froms[0] if len(froms) == 1 and "FROM" not in found else ("none" if not froms and "FROM" in found else "?%s" % froms)
+        obs = dict(seen=sorted(n for n in found if n.startswith("seen_")), dir=won, local=("own_" + won) in found,
+                   warned=sorted(set(re.findall(r"warning: Cannot find (\S+)", r.stderr))), top="top_marker" in found)
+        # hook view of the chain's includes, in order
+        hook = []
+        if os.path.exists(tr):
+            want = list(names)
+            for line in open(tr):
+                try:
+                    e = json.loads(line)
+                except ValueError:
+                    continue
+                if e.get("e") == "Include" and want and e.get("name") == want[0]:
+                    k = len(names) - len(want) + 1
+                    want.pop(0)
+                    if e["path"] == "":
+                        hook.append(dict(e="ChainInc", dir="none", src="none"))
+                    elif k <= K:
+                        right = os.path.join(root, *dirs[k], "f%d.h" % k)
+                        hook.append(dict(e="ChainInc", dir="R" if e["path"] == right else "?", src=SRC.get(e["src"], "?")))
+                    else:
+                        pl = [p for p in rec["leafAt"] if os.path.join(root, *place_dir[p], "sib.h") == e["path"]]
+                        hook.append(dict(e="ChainInc", dir=pl[0] if pl else "?", src=SRC.get(e["src"], "?")))
+        shutil.rmtree(root, ignore_errors=True)
+        return rec, argv, r.rc, r.timed_out, obs, hook, r.stderr[-700:]
+
+    n, events = 0, []
+    for rec, argv, rc, to, obs, hook, err in run.pmap(one, list(enumerate(recs))):
+        n += 1
+        K = len(rec["ways"])
+        cls = [K_SYMDD_OPT] if "Ilinkdd" in rec["ways"] else []
+        exp = dict(seen=["seen_%d" % k for k in range(1, K + 1)], dir=rec["dir"], local=rec["src"] == "local",
+                   warned=["sib.h"] if rec["dir"] == "none" else [], top=True)
+        case = dict(case=rec, argv=argv, expected=exp, observed=obs, hook=hook, stderr=err)
+        if rc != 0 or to:
+            ctx.violation("interrogate exit %s (timeout %s) on an include chain %s" % (rc, to, rec["ways"]), case, classes=cls)
+            continue
+        if obs != exp:
+            ctx.violation("include chain main.h -> %s -> \"sib.h\" (links found through %s; -I/-S order %s; sib.h present in %s): "
+                          "expected files reached %s and sib.h from %s%s, interrogate reached %s and took %s (warnings: %s)" % (
+                              " -> ".join("f%d.h" % k for k in range(1, K + 1)), rec["ways"], rec["cmd"], rec["leafAt"],
+                              exp["seen"], exp["dir"], " (own)" if exp["local"] else "", obs["seen"], obs["dir"], obs["warned"]),
+                          case, classes=cls)
+        if hook:
+            events.append([dict(e="ChainCase", ways=rec["ways"], cmd=rec["cmd"], leafAt=rec["leafAt"])] + hook + [cls])
+    if len(events) < n:
+        raise MachineryError("include chains: %d runs but only %d with Include events" % (n, len(events)))
+    return n, events
+
+
+# ---------------------------------------------------------------------------------------------
+# include cycles: protected cycles contribute once (C17); an unprotected cycle must end, promptly, with a diagnostic
+def replay_cycles(ctx):
+    base = os.path.join(ctx.tmp, "cycles")
+    prot = {"pragma": ("#pragma once\n", ""), "guard": ("#ifndef %(g)s\n#define %(g)s\n", "#endif\n"), "none": ("", "")}
+    items = []
+    for g, (pre, post) in prot.items():
+        d = os.path.join(base, g)
+        os.makedirs(d)
+        for me, other in (("a", "b"), ("b", "a"), ("self", "self")):
+            open(os.path.join(d, me + ".h"), "w").write(
+                (pre % dict(g="G_" + me.upper()) if "%" in pre else pre) + '#include "%s.h"\nint in_%s;\n' % (other, me) + post)
+        items += [(g, "a.h"), (g, "self.h")]
+
+    def one(it):
+        g, top = it
+        r = run.run_tool("parse_file", [top], cwd=os.path.join(base, g), timeout=90)
+        return g, top, r.rc, r.timed_out, r.wall, {m: len(re.findall(r"\bint in_%s;" % m, r.stdout)) for m in ("a", "b", "self")}, \
+            r.stderr[-400:]
+    n = 0
+    for g, top, rc, to, wall, counts, err in run.pmap(one, items):
+        n += 1
+        info = dict(protection=g, top=top, rc=rc, timed_out=to, wall=round(wall, 2), contributions=counts, stderr=err)
+        if g != "none":
+            want = {"a": 1, "b": 1, "self": 0} if top == "a.h" else {"a": 0, "b": 0, "self": 1}
+            if rc != 0 or to or counts != want:
+                ctx.violation("include cycle of %s-protected headers (%s): expected exit 0 and one contribution each, got exit %s "
+                              "(timeout %s) and %s" % (g, top, rc, to, counts), info)
+        else:
+            if to or rc in (0, None) or "nested too deeply" not in err or wall > 30:
+                ctx.violation("unprotected include cycle (%s): expected a prompt error, got exit %s after %.1fs (timeout %s), "
+                              "stderr %r" % (top, rc, wall, to, err[-160:]), info, classes=[K_CYCLE])
+    return n
+
+
+# ---------------------------------------------------------------------------------------------
+# Part 5: path normalisation
 def replay_paths(ctx, recs):
     ld = build.libdir()
     tool = harness.ensure("path_tool", ["path_tool.cxx", os.path.join(ld, "libdtoolutil.a"),
@@ -498,6 +673,12 @@ def replay_paths(ctx, recs):
                           dict(path=rp, once=std_r, twice=std2_r), classes=cls)
         if r["node"] in ino:
             nontriv += 1
+            if r["link"] and ".." in t.split("/"):
+                # a ".." after a symbolic link: the lexical collapse is known to change the denotation
+                if stat_ino(std_r, cwd) != have or stat_ino(mabs_r, cwd) != have:
+                    ctx.violation("standardize / make_absolute change what %r denotes (a \"..\" after a symbolic link is "
+                                  "collapsed textually): %r / %r" % (rp, std_r, mabs_r),
+                                  dict(path=rp, standardize=std_r, make_absolute=mabs_r), classes=[K_SYMDD_FN])
             if not r["link"]:
                 # lexical normalisation keeps the denotation on symlink-free paths
                 if stat_ino(std_r, cwd) != have:
@@ -580,7 +761,7 @@ def run_check(ctx):
     vac = tlc.vacuous_actions(res)
     if vac:
         raise MachineryError("IncludeSearch: actions never taken: %s" % vac)
-    lookups, onces, owns, seen = [], [], [], set()
+    lookups, onces, owns, chains, seen = [], [], [], [], set()
     for r in tlc.read_dump(dump):
         key = json.dumps(r, sort_keys=True)
         if key in seen:
@@ -591,11 +772,15 @@ def run_check(ctx):
             lookups.append(r)
         elif r["k"] == "own":
             owns.append(r)
+        elif r["k"] == "chain":
+            r["leafAt"] = sorted(r["leafAt"], key=LEAF_ORDER.index)
+            chains.append(r)
         else:
             onces.append(r)
-    if len(lookups) < 90000 or len(onces) < 300 or len(owns) != 216:
-        raise MachineryError("IncludeSearch dump too small: %d lookup cases, %d once-only histories, %d ownership cases"
-                             % (len(lookups), len(onces), len(owns)))
+    if len(lookups) < 90000 or len(onces) < 300 or len(owns) != 216 or len(chains) < 39000:
+        raise MachineryError("IncludeSearch dump too small: %d lookup cases, %d once-only histories, %d ownership cases, "
+                             "%d chains" % (len(lookups), len(onces), len(owns), len(chains)))
+    chains.sort(key=lambda r: json.dumps(r, sort_keys=True))
     owns.sort(key=lambda r: json.dumps(r, sort_keys=True))
     pdump = os.path.join(ctx.tmp, "paths.ndjson")
     pres = tlc.run("PathNormMC", pn_cfg, env={"VERIF_DUMP": pdump}, timeout=1500)
@@ -632,11 +817,15 @@ def run_check(ctx):
     n_pf = replay_lookup_parse_file(ctx, sel, roots)
     n_o, ev_o = replay_once(ctx, onces)
     n_w, ev_w = replay_own(ctx, owns)
+    csel = select_chains(chains, tier)
+    n_c, ev_c = replay_chains(ctx, csel)
+    n_y = replay_cycles(ctx)
     n_p, nt_p = replay_paths(ctx, paths)
-    ctx.cov["evaluations"] += n_l + n_pf + n_o + n_p + n_w
-    ctx.cov["traces_validated_against_impl"] += n_l + n_pf + n_o + n_p + n_w
-    ctx.cov["distinct_nontrivial"] = nt_l + sum(1 for r in onces if len(r["spelled"]) >= 2) + nt_p + n_w
+    ctx.cov["evaluations"] += n_l + n_pf + n_o + n_p + n_w + n_c + n_y
+    ctx.cov["traces_validated_against_impl"] += n_l + n_pf + n_o + n_p + n_w + n_c + n_y
+    ctx.cov["distinct_nontrivial"] = nt_l + sum(1 for r in onces if len(r["spelled"]) >= 2) + nt_p + n_w + n_c
     ctx.notes["ownership_cases_replayed"] = n_w
+    ctx.notes.update(include_chains_in_model=len(chains), include_chains_replayed=n_c, include_cycle_cases=n_y)
     ctx.notes.update(lookup_cases_in_model=len(lookups), lookup_cases_replayed_interrogate=n_l,
                      lookup_cases_replayed_parse_file=n_pf, once_only_histories_replayed=n_o, paths_checked=n_p)
     for r in sel[7::max(1, len(sel) // 3)][:3]:
@@ -646,7 +835,7 @@ def run_check(ctx):
     ctx.sample(dict(kind="path", **paths[len(paths) // 2]))
 
     # ---- trace validation ---------------------------------------------------------------------
-    nval = validate(ctx, ev_l + ev_o + ev_w)
+    nval = validate(ctx, ev_l + ev_o + ev_w + ev_c)
     ctx.notes["hook_traces_validated"] = nval
     ctx.cov["traces_validated_against_impl"] += nval
     ctx.assumptions.append("'skipped with a warning' is observed at verbosity >= 2 (interrogate -v, parse_file), where the "
